@@ -442,7 +442,7 @@ def assert_uniform(ctx):
             key = tuple(params[q] for q in ctx.start.extra_parameters)
             if len(set(key)) > 1:
                 continue
-            truth = [w for w in R.words(ctx.table, n) if all(w.count("a") == v for v in key)]
+            truth = e2e.truth_objects(ctx, n, key)
             rng = EnumRNG()
             dist = {}
             outcomes = 0
